@@ -62,6 +62,8 @@ def compare_models(a, b):
             return f'{type(x).__name__} #{x.id}: parameter count changed'
         for u, v in zip(px, py):
             tol = PTOL + 2.0 ** -23 * max(abs(u), 1e-30) + (1e-6 * abs(u) if isinstance(x, BinaryCLT) else 0)
+            if u == v:          # covers -inf == -inf
+                continue
             if not abs(u - v) <= tol:
                 return f'{type(x).__name__} #{x.id}: parameter {u!r} became {v!r}'
         for cx, cy in zip(x.children, y.children):
@@ -270,10 +272,9 @@ def run(ctx):
         rs = np.random.RandomState(np_seed(ctx.sub_rng('net', k)))
         nv = int(rs.randint(1, 5))
         kinds = FAMILIES[k % len(FAMILIES)]
-        root = S.rand_spn(rs, list(range(nv)), depth=int(rs.randint(0, 4)), kinds=kinds, share=float(rs.choice([0.0, 0.4])), clt=(k % 3 == 0))
-        if has_repeated_child(root) and k % 10:
-            # an inner node listing one child object twice is the known finding F15; keep one in ten of them
-            root = S.rand_spn(rs, list(range(nv)), depth=int(rs.randint(0, 4)), kinds=kinds, share=0.0, clt=(k % 3 == 0))
+        # sharing without listing one child object twice under the same node (that is the known finding F15; one in ten keeps it)
+        root = S.rand_spn(rs, list(range(nv)), depth=int(rs.randint(0, 5)), kinds=kinds, share=float(rs.choice([0.0, 0.4, 0.8])), clt=(k % 3 == 0),
+                          no_repeat=bool(k % 10))
         if isinstance(root, BinaryCLT):
             root._as_spn = True
         if getattr(root, 'children', None):
@@ -290,10 +291,18 @@ def run(ctx):
         if ctx.n_new() >= 3:
             return
     # a Chow-Liu tree saved on its own
-    for k in range(8 if quick else 100):
+    for k in range(12 if quick else 150):
         rs = np.random.RandomState(np_seed(ctx.sub_rng('clt', k)))
         n = int(rs.randint(1, 7))
         clt = S.rand_clt(rs, [int(v) for v in rs.choice(n + 3, n, replace=False)])
+        if k % 3 == 1 and n >= 2:
+            # deterministic table rows (probability exactly 0 / 1, i.e. -inf log-parameters), as fitted with alpha = 0 on duplicated columns
+            prm = np.array(clt.params, dtype=np.float64)
+            j = int(rs.choice([i for i in range(n) if i != clt.root]))
+            with np.errstate(divide='ignore'):
+                prm[j, 0] = np.log([1.0, 0.0])
+            clt.params = prm.astype(np.float32)
+            ctx.count('clt-with-deterministic-row')
         ctx.case('clt', nontrivial_key=('clt', k), sample=dict(scope=list(clt.scope), tree=[int(t) for t in clt.tree]))
         round_trip(ctx, 'clt', clt, rs, dict(kind='c13-clt', scope=list(clt.scope), tree=[int(t) for t in clt.tree], params=np.asarray(clt.params).tolist(),
                                              root=int(clt.scope[clt.root])))
